@@ -335,7 +335,19 @@ def body_spellings(env):
             env.fail('unit spelling accepted by check_units is converted without an exception',
                      why=repr(ex)[:200], key='convert_units_raises')
             env.stop()
-        env.gt('converted flow positive', s.data['Assignment']['ByPosition'][0][2]['flowrate'], 0)
+        got = s.data['Assignment']['ByPosition'][0][2]['flowrate']
+        env.gt('converted flow positive', got, 0)
+        # the meaning of the spelling: its mass word is one of the pound or kilogram words, its time word one of the second,
+        # minute or hour words (the word lists of dassh.utils; the grouping is the semantics) -- the value must come out in kg/s
+        mm = mu.lower().replace(' ', '')
+        parts = mm.split('/') if '/' in mm else mm.split('per')
+        if len(parts) == 2:
+            mass = 'lb' if parts[0] in um._lb else ('kg' if parts[0] in um._kg else None)
+            tm = 's' if parts[1] in um._sec else ('min' if parts[1] in um._min else ('hr' if parts[1] in um._hr else None))
+            if mass and tm:
+                want = x * float(MASS[mass] / TIME[tm])
+                env.holds('flow given in "%s" comes out in kg/s (1e-6 relative)' % mu,
+                          env.land(got - want <= 1e-6 * want, want - got <= 1e-6 * want), key='spelling_converted_as_another_unit')
 
 
 def body_spacergrid(env):
